@@ -308,7 +308,7 @@ Lemma be_to_N_app : forall a b,
   be_to_N (a ++ b) = N.lor (N.shiftl (be_to_N a) (8 * N.of_nat (length b))) (be_to_N b).
 Proof.
   induction a as [|x a IH]; intros b.
-  - simpl. rewrite N.shiftl_0_l. reflexivity.
+  - cbn [app be_to_N]. now rewrite N.shiftl_0_l, N.lor_0_l.
   - cbn [app be_to_N]. rewrite IH, app_length.
     rewrite N.shiftl_lor, N.shiftl_shiftl, N.lor_assoc.
     do 3 f_equal. lia.
